@@ -175,8 +175,9 @@ func WaitFor(d time.Duration, cond func() bool) bool {
 }
 
 // ErrClass maps an error returned by the client to a small enum shared by the observers.
-//   0 nil, 1 redis error reply, 2 redis nil, 3 context canceled, 4 context deadline, 5 ErrClosing,
-//   6 ErrDedicatedClientRecycled, 7 ErrNoCache, 8 io.EOF-like / other
+//
+//	0 nil, 1 redis error reply, 2 redis nil, 3 context canceled, 4 context deadline, 5 ErrClosing,
+//	6 ErrDedicatedClientRecycled, 7 ErrNoCache, 8 io.EOF-like / other
 func ErrClass(err error) int {
 	switch {
 	case err == nil:
@@ -318,6 +319,13 @@ func Await(cond func() bool) bool {
 	if WaitFor(Patience(), cond) {
 		return true
 	}
+	Expired()
+	return false
+}
+
+// Expired records that a wait bounded by Patience() ran out (for waits that are not made through Await, e.g. a
+// context deadline): the bound is halved.
+func Expired() {
 	for {
 		p := atomic.LoadInt64(&patience)
 		np := p / 2
@@ -328,5 +336,4 @@ func Await(cond func() bool) bool {
 			break
 		}
 	}
-	return false
 }
